@@ -362,3 +362,30 @@ def s_is_keyword(ex, args, kwargs, st, node):
 
 
 SYMBOLIC.update({"is_ascii_identifier": s_is_ascii_identifier, "is_keyword": s_is_keyword})
+
+
+def no_none_values(d):
+    return isinstance(d, dict) and all(v is not None for v in d.values())
+
+
+def s_no_none_values(ex, args, kwargs, st, node):
+    from .sym import NONE
+    v = ex.as_val(args[0], st, node)
+    k = z3.Const("k!nn", StrS)
+    return VBool(z3.And(v.is_tag("d"), z3.ForAll([k], z3.Select(v.payload("d"), k) != NONE)))
+
+
+def same_keys_where_not_none(res, src):
+    """res has exactly the keys of src whose value is not None"""
+    return set(res) == {k for k, v in src.items() if v is not None}
+
+
+def s_same_keys_where_not_none(ex, args, kwargs, st, node):
+    from .sym import NONE
+    r = ex.need(ex.as_val(args[0], st, node), "d", st, node)
+    s_ = ex.need(ex.as_val(args[1], st, node), "d", st, node)
+    k = z3.Const("k!sk", StrS)
+    return VBool(z3.ForAll([k], (z3.Select(r, k) != ABSENT) == z3.And(z3.Select(s_, k) != ABSENT, z3.Select(s_, k) != NONE)))
+
+
+SYMBOLIC.update({"no_none_values": s_no_none_values, "same_keys_where_not_none": s_same_keys_where_not_none})
